@@ -379,7 +379,7 @@ theorem error_then_resume (s s2 : Source) (c : Cache) (req : Nat) (new old : Hdr
     (d.connected.reverse.drop (fetchPrefix s req1 d.connected.reverse))
     (by rw [List.take_append_drop]; simp [hL.path])
   rw [← htip] at k1
-  rcases s2 with ⟨tree2, best2, fails2, hidden2, bitcoin2⟩
+  rcases s2 with ⟨tree2, best2, fails2, hidden2, bitcoin2, transient2⟩
   simp only at ht2 hb2
   subst ht2 hb2
   have hf0 : ∀ k, fails2 k = false := hs2.1
@@ -397,12 +397,12 @@ theorem error_then_resume (s s2 : Source) (c : Cache) (req : Nat) (new old : Hdr
       | true =>
         have : new = cl'.tip := inTree_hash_inj hn u2 (by simpa using hq)
         rw [← this] at hwk; omega
-    have hpoll : pollChainTip ⟨s.tree, new.hash, fails2, hidden2, bitcoin2⟩ 0 cl'.tip = .ok (.better new, 2) := by
+    have hpoll : pollChainTip ⟨s.tree, new.hash, fails2, hidden2, bitcoin2, transient2⟩ 0 cl'.tip = .ok (.better new, 2) := by
       have hhash' : ¬ new.hash = cl'.tip.hash := by simpa using hhash
       simp [pollChainTip, Source.getBestBlock, Source.getHeader, hf0, hh0, hhash', hnew, hwk, tipIsCommon, tipIsBetter]
-    have hs2' : (Source.mk s.tree new.hash fails2 hidden2 bitcoin2).Healthy := hs2
-    obtain ⟨d2, q, e2⟩ := findDiff_complete (s := ⟨s.tree, new.hash, fails2, hidden2, bitcoin2⟩) hw hg hs2' u3 2 hn u2
-    have hL2 := findDiff_spec (s := ⟨s.tree, new.hash, fails2, hidden2, bitcoin2⟩) hw u3 hn u2 e2
+    have hs2' : (Source.mk s.tree new.hash fails2 hidden2 bitcoin2 transient2).Healthy := hs2
+    obtain ⟨d2, q, e2⟩ := findDiff_complete (s := ⟨s.tree, new.hash, fails2, hidden2, bitcoin2, transient2⟩) hw hg hs2' u3 2 hn u2
+    have hL2 := findDiff_spec (s := ⟨s.tree, new.hash, fails2, hidden2, bitcoin2, transient2⟩) hw u3 hn u2 e2
     have hcand : IsLca s.tree new cl'.tip
         ⟨cl'.tip, (d.connected.reverse.drop (fetchPrefix s req1 d.connected.reverse)).reverse⟩ :=
       ⟨k1, mem_anc_self _ _, fun x _ hx => hx⟩
@@ -413,9 +413,9 @@ theorem error_then_resume (s s2 : Source) (c : Cache) (req : Nat) (new old : Hdr
       intro x hx
       apply anc_inTree hw hn
       rw [hL.path]; exact List.mem_append_left _ (List.mem_reverse.mp (List.mem_of_mem_drop hx))
-    have hp1 := fun tip c' req' => connectBlocks_prefix ⟨s.tree, new.hash, fails2, hidden2, bitcoin2⟩
+    have hp1 := fun tip c' req' => connectBlocks_prefix ⟨s.tree, new.hash, fails2, hidden2, bitcoin2, transient2⟩
       (d.connected.reverse.drop (fetchPrefix s req1 d.connected.reverse)) tip c' req'
-    have hfp := fun req' => fetchPrefix_healthy (s := ⟨s.tree, new.hash, fails2, hidden2, bitcoin2⟩) hs2'
+    have hfp := fun req' => fetchPrefix_healthy (s := ⟨s.tree, new.hash, fails2, hidden2, bitcoin2, transient2⟩) hs2'
       (d.connected.reverse.drop (fetchPrefix s req1 d.connected.reverse)) req' hall
     simp only [pollBestTip, hpoll, updateChainTip, synchronizeListener, syncDisconnects, e2, List.reverse_reverse, hp1, hfp,
       beq_self_eq_true, if_true]
@@ -426,7 +426,7 @@ theorem error_then_resume (s s2 : Source) (c : Cache) (req : Nat) (new old : Hdr
     have hj : fetchPrefix s req1 d.connected.reverse = d.connected.reverse.length := by
       have := fetchPrefix_le s d.connected.reverse req1; omega
     have htn : cl'.tip = new := by rw [htip]; exact (hk.2.2.1 hj).2
-    have hpoll : pollChainTip ⟨s.tree, new.hash, fails2, hidden2, bitcoin2⟩ 0 new = .ok (.common, 1) := by
+    have hpoll : pollChainTip ⟨s.tree, new.hash, fails2, hidden2, bitcoin2, transient2⟩ 0 new = .ok (.common, 1) := by
       simp [pollChainTip, Source.getBestBlock, hf0, tipIsCommon]
     simp [pollBestTip, hpoll, htn, hj]
 
@@ -723,16 +723,79 @@ theorem toSource_faithful (a : Adv) (t : Tree) (htr : a.TruthfulOn t) (k h : Nat
   cases hg : a.getHeader k h with
   | ok b => exact (toSource_getHeader a t k h b).mpr ⟨hg, htr.1 k h b hg⟩
   | error e =>
-    have he : e = .source := by
-      unfold Adv.getHeader at hg
-      split at hg
-      · cases hg; rfl
-      · split at hg
-        · cases hg; rfl
-        · cases hg
-    subst he
-    unfold Source.getHeader Adv.toSource
-    simp [hg]
+    have hf : (a.toSource t).getHeader k h = .error ((a.toSource t).err (.header k h)) := by
+      unfold Source.getHeader; simp [Adv.toSource, hg]
+    rw [hf]
+    unfold Adv.getHeader at hg
+    cases hr : a.header k h with
+    | none =>
+      simp only [hr] at hg
+      cases hg
+      simp [Source.err, Adv.toSource, Adv.err, hr]
+    | some raw =>
+      simp only [hr] at hg
+      cases hv : validateHeader raw h with
+      | none => simp only [hv] at hg; cases hg; simp [Source.err, Adv.toSource, hr]
+      | some b => simp [hv] at hg
+
+/-- The failure-scheduled view is EXACT at every previous-header look-up, with no truthfulness assumption:
+    for a block `h` of the universe, the REAL `look_up_previous_header` over an arbitrary collision-free
+    source (`Adv.pollerPrev`: translated validate + check_builds_on, no tree) returns `p` iff the model's
+    `pollerPrev` over `a.toSource t` does. A lie about the predecessor's height or chainwork is refused by
+    the real code itself. (What remains trusted is only the claimed height / chainwork of headers that are
+    never compared with a successor: the polled tip and the locator look-ups.) -/
+theorem prev_lookup_exact (a : Adv) (t : Tree) (req : Nat) (h p : Hdr)
+    (hw : wfTree t = true) (hcf : a.CollisionFree t) (hh : InTree t h) :
+    a.pollerPrev req h = .ok (p, req + 1) ↔ pollerPrev (a.toSource t) req h = .ok (p, req + 1) := by
+  unfold Adv.pollerPrev pollerPrev
+  by_cases hg : isGenesisHeader h = true
+  · simp [hg]
+  · have h0 : h.height ≠ 0 := by simpa [isGenesisHeader] using hg
+    obtain ⟨p0, hp0, _, _, _⟩ := parent_of hw hh h0
+    simp only [hg, Bool.false_eq_true, if_false]
+    have hbit : (a.toSource t).bitcoin = a.bitcoin := rfl
+    rw [hbit]
+    constructor
+    · intro e
+      cases hga : a.getHeader req h.parent with
+      | error er => simp [hga] at e
+      | ok q =>
+        simp only [hga] at e
+        split at e
+        · rename_i hcb
+          cases e
+          -- the accepted answer is the true parent
+          have hq : p = p0 := by
+            unfold Adv.getHeader at hga
+            cases hr : a.header req h.parent with
+            | none => simp [hr] at hga
+            | some raw =>
+              simp only [hr] at hga
+              cases hv : validateHeader raw h.parent with
+              | none => simp [hv] at hga
+              | some q' =>
+                simp only [hv] at hga
+                cases hga
+                obtain ⟨v1, v2, _, _⟩ := validate_header_sound raw h.parent p hv
+                have hph : p0.hash = h.parent := (hdrOf_some hp0).2
+                exact prev_lookup_accepts_only_the_parent t a.bitcoin h p0 p raw hw hh h0 hp0
+                  (fun _ => hcf req h.parent raw p0 hr v1 (by rw [v2]; exact hp0)) hv hcb
+          subst hq
+          have : (a.toSource t).getHeader req h.parent = .ok p :=
+            (toSource_getHeader a t req h.parent p).mpr ⟨hga, hp0⟩
+          simp [this, hcb]
+        · cases e
+    · intro e
+      cases hgs : (a.toSource t).getHeader req h.parent with
+      | error er => simp [hgs] at e
+      | ok q =>
+        simp only [hgs] at e
+        split at e
+        · rename_i hcb
+          cases e
+          have := ((toSource_getHeader a t req h.parent p).mp hgs).1
+          simp [this, hcb]
+        · cases e
 
 /-- a `connected` notification of any operation comes from `connect_blocks`, after a successful
     `fetch_block` of exactly that header -/
@@ -839,6 +902,12 @@ example : (runPolls ⟨b1, []⟩ [
       (exAdv (fun _ _ => none) (fun _ _ => none)).toSource exTree]).2
     = [.connected 4 1, .connected 5 2, .connected 6 3] := by decide
 
+-- `prev_lookup_exact` is not vacuous:
+example : (exAdv (fun _ _ => none) (fun _ _ => none)).pollerPrev 3 b6 = .ok (b5, 4) ∧
+    -- the predecessor served with height + 1 / chainwork + 1: refused by check_builds_on itself
+    (exAdv (fun _ _ => some ⟨5, 4, 3, 6, 7, 2, true⟩) (fun _ _ => none)).pollerPrev 3 b6 = .error (.buildsOn, 4) ∧
+    (exAdv (fun _ _ => some ⟨5, 4, 2, 7, 7, 2, true⟩) (fun _ _ => none)).pollerPrev 3 b6 = .error (.buildsOn, 4) := ⟨rfl, rfl, rfl⟩
+
 /-! ## exactly when the tip work decreases (KF-C20-1 as a theorem) -/
 
 /-- EXACT characterisation of the triples (tree, client state, source behaviour) in which a poll lowers
@@ -934,5 +1003,90 @@ theorem tip_only_improves (s : Source) (cl : Client)
 example : (pollBestTip (exSrc 6 [7]) ⟨b3, []⟩).client.tip.work < b3.work := by decide
 example : ¬ (pollBestTip (exSrc 6 [9]) ⟨b3, []⟩).client.tip.work < b3.work := by decide
 example : ¬ (pollBestTip (exSrc 6 [4]) ⟨b3, []⟩).client.tip.work < b3.work := by decide  -- failure during the walk
+
+/-! ## BlockSourceError kinds through poll_best_tip -/
+
+/-- `poll_best_tip` returns `Err` only out of `poll_chain_tip` (every error during `update_chain_tip` is
+    folded into the returned `bool`, see `error_keeps_prefix`); the error is that of the FIRST failing
+    request among `get_best_block` (request 0) and the tip's `get_header` (request 1), with the source's
+    own kind — Transient iff that request was a transient source error — and a tip header the source does
+    not know is a Persistent error. -/
+theorem poll_error_kind (s : Source) (cl : Client) (e : Err) (h : (pollBestTip s cl).result = .error e) :
+    (s.fails (.best 0) = true ∧ e = s.err (.best 0)) ∨
+    (s.fails (.best 0) = false ∧ s.fails (.header 1 s.best) = true ∧ e = s.err (.header 1 s.best)) ∨
+    (s.fails (.best 0) = false ∧ s.fails (.header 1 s.best) = false ∧ e = .source) := by
+  unfold pollBestTip at h
+  cases hp : pollChainTip s 0 cl.tip with
+  | ok v =>
+    rcases v with ⟨k, r⟩
+    cases k <;> simp [hp] at h
+  | error er =>
+    rcases er with ⟨e', r⟩
+    simp only [hp] at h
+    cases h
+    unfold pollChainTip Source.getBestBlock at hp
+    cases hb : s.fails (.best 0) with
+    | true =>
+      simp only [hb, if_true] at hp
+      cases hp
+      exact Or.inl ⟨rfl, rfl⟩
+    | false =>
+      simp only [hb, Bool.false_eq_true, if_false] at hp
+      split at hp
+      · cases hp
+      · unfold Source.getHeader at hp
+        cases hf : s.fails (.header 1 s.best) with
+        | true =>
+          simp only [Nat.zero_add, hf, if_true] at hp
+          cases hp
+          exact Or.inr (Or.inl ⟨rfl, rfl, rfl⟩)
+        | false =>
+          simp only [Nat.zero_add, hf, Bool.false_eq_true, if_false] at hp
+          refine Or.inr (Or.inr ⟨rfl, rfl, ?_⟩)
+          split at hp
+          · rename_i e' hq
+            cases hp
+            split at hq
+            · cases hq; rfl
+            · split at hq
+              · cases hq
+              · cases hq; rfl
+          · split at hp <;> cases hp
+
+/-- … and whatever an arbitrary source ANSWERS (as opposed to erring) can only yield a Persistent error:
+    a refusal by the Validate layer is never reported as Transient. -/
+theorem refusal_is_persistent (a : Adv) (t : Tree) (k h : Nat) (raw : RawHdr) (hr : a.header k h = some raw) :
+    (a.toSource t).err (.header k h) = .source := by
+  simp [Source.err, Adv.toSource, hr]
+
+example : (pollBestTip { exSrc 6 [0] with transient := fun _ => true } ⟨b3, []⟩).result = .error .transient ∧
+    (pollBestTip (exSrc 6 [1]) ⟨b3, []⟩).result = .error .source ∧
+    (pollBestTip { exSrc 6 [7] with transient := fun _ => true } ⟨b3, []⟩).result = .ok (.better b6, true) :=
+  ⟨rfl, rfl, rfl⟩
+
+/-! ## the header cache keeps exactly the last HEADER_CACHE_LIMIT heights -/
+
+/-- `HeaderCache::block_connected` (translated cutoff and retain predicate): afterwards the cache holds the
+    connected header and every earlier entry with another hash, restricted to exactly the heights
+    `≥ height - HEADER_CACHE_LIMIT`; `blocks_disconnected` (outside the start-up sync) keeps exactly the
+    entries at or below the fork point. Together with `cache_miss_safe` (the result never depends on the
+    cache) this is all the property needs from the cache; the window itself is what bounds memory. -/
+theorem cache_window (c : Cache) (b f x : Hdr) :
+    (x ∈ cacheBlockConnected c b ↔ (x = b ∨ (x ∈ c ∧ x.hash ≠ b.hash)) ∧ b.height - HEADER_CACHE_LIMIT ≤ x.height) ∧
+    (x ∈ cacheBlocksDisconnected c false f ↔ x ∈ c ∧ x.height ≤ f.height) ∧
+    (cacheBlocksDisconnected c true f = c) := by
+  refine ⟨?_, ?_, ?_⟩
+  · simp [cacheBlockConnected, cacheInsert, cacheKeeps, cacheCutoff, List.mem_filter]
+    constructor
+    · rintro (rfl | ⟨h1, h2, h3⟩)
+      · exact ⟨Or.inl rfl, by omega⟩
+      · exact ⟨Or.inr ⟨h1, h3⟩, h2⟩
+    · rintro ⟨rfl | ⟨h1, h3⟩, h2⟩
+      · exact Or.inl rfl
+      · exact Or.inr ⟨h1, h2, h3⟩
+  · simp [cacheBlocksDisconnected, disconnectKeeps, List.mem_filter]
+  · simp [cacheBlocksDisconnected]
+
+example : (cacheBlockConnected [hd 1 0 0 2, hd 2 1 1 4] (hd 9 8 1009 9)).map (·.hash) = [9, 2] := by decide
 
 end Ldk.C20
